@@ -129,7 +129,7 @@ theorem NoDupPairs.read {a : Agent} (hd : NoDupPairs a) :
 theorem equal_comm (x y : Cand) : x.equal y = y.equal x := by
   rw [Bool.eq_iff_iff]
   simp only [Cand.equal, Cand.taEqual, Bool.and_eq_true, beq_iff_eq]
-  constructor <;> (rintro ⟨⟨⟨⟨h1, h2⟩, h5⟩, h3⟩, h4⟩; exact ⟨⟨⟨⟨h1.symm, h2.symm⟩, h5.symm⟩, h3.symm⟩, h4.symm⟩)
+  constructor <;> (rintro ⟨⟨⟨h1, h2⟩, h3⟩, h4⟩; exact ⟨⟨⟨h1.symm, h2.symm⟩, h3.symm⟩, h4.symm⟩)
 
 /-- … and in the words of the property: no two listed pairs have `Equal` local ends and `Equal` remote ends -/
 theorem NoDupPairs.read_equal {a : Agent} (h : Inv a) (hd : NoDupPairs a) :
@@ -204,26 +204,11 @@ theorem dup_run {a : Agent} (hi : Inv a) (hd : NoDupPairs a) (hp : PrflxRel0 a) 
     obtain ⟨h1, h2⟩ := dup_step hi hd hp e (hok e List.mem_cons_self)
     exact ih (hi.step e) h1 h2 (fun e' he' => hok e' (List.mem_cons_of_mem _ he'))
 
-theorem form_run {a : Agent} (hi : Inv a) (hp : RemForm0 a) (evs : List Ev)
-    (hok : ∀ e ∈ evs, evCanon e = true) : RemForm0 (run a evs) := by
-  unfold run
-  induction evs generalizing a with
-  | nil => exact hp
-  | cons e evs ih =>
-    exact ih (hi.step e) (form_step hi hp e (hok e List.mem_cons_self)) (fun e' he' => hok e' (List.mem_cons_of_mem _ he'))
-
-theorem Init.form0 {a : Agent} (h : Init a) : RemForm0 a := by
-  obtain ⟨_, _, h3, _⟩ := h
-  simp [RemForm0, rcsOf, h3]
-
-/-- with canonical literals only, the remote candidates are pairwise different as canonical candidates -/
-theorem RemForm0.canon {a : Agent} (h : Inv a) (hp : RemForm0 a) :
-    a.remotes.Pairwise (fun x y => canonEqual x y = false) := by
-  refine (h.read_remotes.1).imp_of_mem ?_
-  intro x y hx hy hne
-  have fx : x.form = 0 := by simpa using hp (core x) (mem_rcsOf hx)
-  have fy : y.form = 0 := by simpa using hp (core y) (mem_rcsOf hy)
-  rw [canonEqual_of_form (fx.trans fy.symm)]; exact hne
+/-- the remote candidates are pairwise different as canonical candidates, whatever literals they were signalled with -/
+theorem Inv.canon {a : Agent} (h : Inv a) : a.remotes.Pairwise (fun x y => canonEqual x y = false) := by
+  refine (h.read_remotes.1).imp ?_
+  intro x y hne
+  rw [canonEqual_eq]; exact hne
 
 theorem Init.noDup {a : Agent} (h : Init a) : NoDupPairs a ∧ PrflxRel0 a := by
   obtain ⟨h1, _, h3, _⟩ := h
